@@ -986,7 +986,7 @@ def run(tier, seed):
                        "V8/Node and the native Go toolchain behave per their specifications"]
     C.build_gvh("gvh_c02")
     chk.proof = C.check_proofs("C02", THEOREMS, tier)
-    nprog = 30 if tier == "quick" else 160
+    nprog = 30 if tier == "quick" else 120
     progs_ = []
     while len(progs_) < nprog:
         g = gen_program(chk.rng, chk.rng.choice([6, 10, 16, 24]))
